@@ -207,6 +207,24 @@ ghost(F_LSM, "LSMTree._flush_memtable", "self._immutable_memtables.remove(old_me
       "_c14_flush_installed(self, sstable)", where="after")
 
 
+# ---- compaction strategies (part G): the loops of select_compaction / should_compact
+# SizeTieredCompaction.select_compaction: for i, level in enumerate(levels)
+loop(F_LSM, "SizeTieredCompaction.select_compaction", 1, inv=[
+    ("best-level-is-an-existing-level", lambda L: (L.best_level == 0) | ((0 <= L.best_level) & (L.best_level < L.i))),
+    ("best-count-is-the-run-count-of-the-best-level", lambda L: (L.best_count >= 0) & implies(
+        L.best_count > 0, mk_bool(z3.Length(seq_term(L.levels)[num(L.best_level)]) == num(L.best_count)))),
+    ("no-level-seen-so-far-has-more-runs", lambda L: forall(Int, lambda j: implies(
+        (0 <= j) & (j < L.i), mk_bool(z3.Length(seq_term(L.levels)[j.t]) <= num(L.best_count))), "j"))])
+# LeveledCompaction: for i in range(1, len(levels))  (both methods return from inside the loop)
+loop(F_LSM, "LeveledCompaction.should_compact", 1, inv=[], types={"limit": Int, "total_keys": Int})
+loop(F_LSM, "LeveledCompaction.select_compaction", 1, inv=[], types={"limit": Int, "total_keys": Int})
+# FIFOCompaction.select_compaction: for i in range(len(levels) - 1, -1, -1)
+loop(F_LSM, "FIFOCompaction.select_compaction", 1, inv=[
+    ("every-deeper-level-is-empty", lambda L: forall(Int, lambda j: implies(
+        mk_bool(z3.And(j.t >= z3.Length(seq_term(L.levels)) - num(L.i), j.t < z3.Length(seq_term(L.levels)), j.t >= 0)),
+        mk_bool(z3.Length(seq_term(L.levels)[j.t]) == 0)), "j"))])
+
+
 def _c14_flush_installed(self, sstable):
     """the flushed entries are now served by the NEWEST run of level 0, every older run and level is where it was
     at the start of this atomic segment, and the memtable the flush started from has been retired"""
@@ -896,6 +914,156 @@ def old_view_of(before_ns, obj):
     return old_view(obj, before_ns._seg)
 
 
+# ============================================================================ H. LSM tree: generator put / delete
+# The linearisation point of a write is the write to the ACTIVE memtable (Memtable.put applies it before its latency,
+# part A); from then on the layered view gives the new value (get_sync: memtable-decides-first).  Clause at the
+# memtable's latency yield: in this atomic segment the then-active memtable received exactly key -> value (delete:
+# key -> tombstone) and no other component changed; at exit: that yield was reached (the write happened).
+FLUSH_GEN_AS_STUB = stub_of(LSMTree, "_flush_memtable", modifies=[
+    "_levels", "_sstable_bytes_written", "_total_memtable_flushes", "_total_compactions", "_immutable_memtables",
+    "_memtable"], ensures=[_KEEPS_LEVEL_COUNT])
+FLUSH_GEN_AS_STUB.returns_none_ok = True
+FLUSH_GEN_AS_STUB.stub_yield = lambda s: s.self._sstable_write_latency
+
+
+def _at_memtable_latency():
+    """the yield just taken is the latency yield of the inlined Memtable.put (innermost generator frame `put`)"""
+    sig = _ctx.cur().sig
+    return bool(sig) and sig[-1][0] == "yield" and str(sig[-1][1]).startswith("put:")
+
+
+class _Stored:
+    def __init__(self, t):
+        self.t = t
+
+
+def _write_applied(stored):
+    def clause(s, y):
+        if not _at_memtable_latency():
+            return True
+        _ctx.cur().ghost_args["c14_written"] = True
+        mt = s.self._memtable
+        return QAll_and(
+            same(mt, s.pre(s.self)._memtable),
+            is_update(mt._data, s.pre(mt)._data, s.key, stored(s)),
+            mk_bool(seq_term(s.self._levels) == seq_term(s.pre(s.self)._levels)),
+            mk_bool(seq_term(s.self._immutable_memtables) == seq_term(s.pre(s.self)._immutable_memtables)),
+            y == mt._write_latency)
+    return clause
+
+
+def QAll_and(*xs):
+    r = xs[0]
+    for x in xs[1:]:
+        r = r & x
+    return r
+
+
+def _write_happened(s):
+    return bool(_ctx.cur().ghost_args.get("c14_written"))
+
+
+_GEN_WRITE_USES = [(WriteAheadLog, "append"), (LSMTree, "_flush_memtable")]
+fn(LSMTree, "put", args={"key": Str, "value": VAL}, focus=LSM_FOCUS, uses=_GEN_WRITE_USES,
+   requires=[("user-values-are-not-the-private-tombstone", lambda s: mk_bool(s.value.t != TOMB))],
+   yields=Yields(at_yield=[("value-written-to-the-active-memtable-in-one-step", _write_applied(lambda s: s.value))]),
+   ensures=[("the-memtable-write-happened", _write_happened)])
+fn(LSMTree, "delete", args={"key": Str}, focus=LSM_FOCUS, uses=_GEN_WRITE_USES,
+   yields=Yields(at_yield=[("tombstone-written-to-the-active-memtable-in-one-step", _write_applied(lambda s: _Stored(TOMB)))]),
+   ensures=[("the-memtable-write-happened", _write_happened)])
+
+
+# ============================================================================ G. compaction strategies
+# What a compaction needs of EVERY strategy (else a tombstone or a newer version left behind in the source level
+# keeps shadowing / is shadowed by the merged run one level down): the selected tables are the WHOLE run list of
+# one existing level, in the level's order - or nothing.  Per strategy additionally the documented choice.
+class _PowBase:
+    """value of LeveledCompaction.size_ratio: `ratio ** i` with a symbolic exponent is an uninterpreted
+    function of both operands (the selection contract does not depend on the limit)"""
+
+    def __init__(self, t):
+        self.t = t
+
+    def __pow__(self, e):
+        f = z3.Function("c14_pow", z3.IntSort(), z3.IntSort(), z3.IntSort())
+        return mk_num(f(self.t, num(e)))
+
+
+class _RatioTy(Ty):
+    name = "Int(base of **)"
+
+    def sort(self):
+        return z3.IntSort()
+
+    def wrap(self, term, loc=None):
+        return _PowBase(term)
+
+    def unwrap(self, v):
+        return v.t if isinstance(v, _PowBase) else num(v)
+
+    def assume_wf(self, term):
+        pass
+
+    def concretize(self, model, term):
+        return model.eval(term, model_completion=True).as_long()
+
+
+LEVELS = Seq(Seq(Ref(SSTable)))
+cls(SizeTieredCompaction, fields={"min_sstables": Int})
+cls(LeveledCompaction, fields={"level_0_max": Int, "size_ratio": _RatioTy(), "base_size_keys": Int})
+cls(FIFOCompaction, fields={"max_total_sstables": Int})
+HAS_L0 = ("the-tree-has-level-0", lambda s: slen(s.levels) >= 1)
+
+
+def _tabs(s):
+    """raw sequence term of the selected tables (`return 0, []` hands back a real empty list)"""
+    t = s.result[1]
+    return t.term if isinstance(t, SymList) else LEVELS.elem.unwrap(t)
+
+
+def _whole_level_or_nothing(s):
+    lvl, tabs = s.result[0], _tabs(s)
+    lv = seq_term(s.levels)
+    return mk_bool(z3.Length(tabs) == 0) | ((0 <= lvl) & (lvl < slen(s.levels)) & _same_seq(tabs, lv[num(lvl)]))
+
+
+def _same_seq(a, b):
+    """a == b for two raw sequence terms, stated pointwise (a refutation then comes with a model: the sequence
+    solver answers `unknown` to most falsifiable sequence equalities)"""
+    return mk_bool(z3.Length(a) == z3.Length(b)) & forall(Int, lambda j: implies(
+        (0 <= j) & mk_bool(j.t < z3.Length(a)), mk_bool(a[j.t] == b[j.t])), "sj")
+
+
+def _level_in_range(s):
+    return (0 <= s.result[0]) & (s.result[0] < slen(s.levels))
+
+
+_SEL = [("selects-the-whole-run-list-of-one-level-or-nothing", _whole_level_or_nothing),
+        ("source-level-exists", _level_in_range),
+        ("pure", lambda s: unchanged(s, s.self))]
+
+fn(SizeTieredCompaction, "select_compaction", args={"levels": LEVELS}, requires=[HAS_L0], ensures=_SEL + [
+    ("the-most-populated-level", lambda s: forall(Int, lambda j: implies(
+        (0 <= j) & (j < slen(s.levels)),
+        mk_bool(z3.Length(seq_term(s.levels)[j.t]) <= z3.Length(seq_term(s.levels)[num(s.result[0])]))), "j")),
+    ("exactly-that-level", lambda s: _same_seq(_tabs(s), seq_term(s.levels)[num(s.result[0])]))])
+fn(LeveledCompaction, "select_compaction", args={"levels": LEVELS}, requires=[HAS_L0], ensures=_SEL + [
+    ("level-0-first-when-it-is-over-its-limit", lambda s: implies(
+        mk_bool(z3.Length(seq_term(s.levels)[0]) >= num(s.self.level_0_max)),
+        (s.result[0] == 0) & _same_seq(_tabs(s), seq_term(s.levels)[0])))])
+fn(LeveledCompaction, "should_compact", args={"levels": LEVELS}, ensures=[
+    ("true-when-level-0-is-over-its-limit", lambda s: implies(
+        (slen(s.levels) >= 1) & mk_bool(z3.Length(seq_term(s.levels)[0]) >= num(s.self.level_0_max)), s.result)),
+    ("pure", lambda s: unchanged(s, s.self))])
+fn(FIFOCompaction, "should_compact", args={"levels": LEVELS}, ensures=[("pure", lambda s: unchanged(s, s.self))])
+fn(FIFOCompaction, "select_compaction", args={"levels": LEVELS}, requires=[HAS_L0], ensures=_SEL + [
+    ("the-deepest-non-empty-level", lambda s: forall(Int, lambda j: implies(
+        (j > s.result[0]) & (j < slen(s.levels)) & mk_bool(z3.Length(_tabs(s)) > 0),
+        mk_bool(z3.Length(seq_term(s.levels)[j.t]) == 0)), "j")),
+    ("nothing-only-from-an-empty-tree", lambda s: implies(mk_bool(z3.Length(_tabs(s)) == 0), forall(Int, lambda j: implies(
+        (0 <= j) & (j < slen(s.levels)), mk_bool(z3.Length(seq_term(s.levels)[j.t]) == 0)), "j")))])
+
+
 # ============================================================================ F. bounded native stand-ins
 # (labelled bounded, never counted as proved)  The compaction merge (`_compact*`: nested dict comprehensions,
 # sorted(dict.items()), any(genexpr)), `LSMTree.get/scan` (yields inside `for sstable in reversed(level)` while
@@ -954,9 +1122,174 @@ def _bounded_lsm_sync(seed, tier):
                                  "got": r, "want": want})
                     break
             trace.append((op, k))
+        shape = _lsm_shape_violation(tree)         # the state invariant the compaction stand-in starts from is reached
+        if shape:
+            viol.append({**shape, "strategy": type(strat).__name__, "trace": trace})
         if len(viol) >= 3:
             break
     return {"evaluations": evals, "violations": viol[:3]}
+
+
+def _runs_of(tree):
+    """[(level, index, run)] of every run of the tree; a run's entries as a dict come from `_entries`"""
+    return [(l, i, r) for l, lv in enumerate(tree._levels) for i, r in enumerate(lv)]
+
+
+def _entries(run):
+    return dict(run._data)
+
+
+def _raw_lookup(tree, k):
+    """what the on-disk part of the layered view stores for k: ('abs',) or ('val', v) with v possibly the tombstone
+    (levels top-down, within a level the newest = last run first)"""
+    for lv in tree._levels:
+        for r in reversed(lv):
+            e = _entries(r)
+            if k in e:
+                return ("val", e[k])
+    return ("abs",)
+
+
+def _lsm_shape_violation(tree):
+    """state invariants of the on-disk part that the correctness of a compaction rests on: every run is sorted with
+    distinct keys and non-empty; the runs of one level >= 1 have pairwise disjoint key sets (the merge gives the
+    overlapping runs of the target level NO defined precedence among each other)"""
+    for l, i, r in _runs_of(tree):
+        ks = [k for k, _ in r._data]
+        if not ks or ks != sorted(set(ks)):
+            return {"case": "run-not-sorted-distinct-nonempty", "level": l, "run": i, "keys": ks}
+    for l, lv in enumerate(tree._levels):
+        if l == 0:
+            continue
+        seen = set()
+        for r in lv:
+            ks = set(_entries(r))
+            if seen & ks:
+                return {"case": "runs-of-a-level-share-keys", "level": l, "keys": sorted(seen & ks)}
+            seen |= ks
+    return None
+
+
+def _expected_source(strat, levels):
+    """the documented choice of each strategy: the source level (always the WHOLE level)"""
+    if isinstance(strat, SizeTieredCompaction):
+        best = max(len(lv) for lv in levels)
+        return next(i for i, lv in enumerate(levels) if len(lv) == best) if best else None
+    if isinstance(strat, LeveledCompaction):
+        if len(levels[0]) >= strat.level_0_max:
+            return 0
+        for i in range(1, len(levels)):
+            if sum(len(r._data) for r in levels[i]) > strat.base_size_keys * strat.size_ratio ** i:
+                return i
+        return 0 if levels[0] else None
+    return next((i for i in range(len(levels) - 1, -1, -1) if levels[i]), None)
+
+
+def _check_one_compaction(tree, strat, run_it, universe):
+    """run ONE compaction on `tree` and compare with the statement: returns a violation dict or None"""
+    before = [list(lv) for lv in tree._levels]
+    raw0 = {k: _raw_lookup(tree, k) for k in universe}
+    read0 = {k: tree.get_sync(k) for k in universe}
+    src = _expected_source(strat, before)
+    run_it(tree)
+    after = [list(lv) for lv in tree._levels]
+    ctx_ = {"strategy": type(strat).__name__, "levels_before": [[sorted((k, "TOMB" if v is _TOMBSTONE else v) for k, v in
+                                                                     _entries(r).items()) for r in lv] for lv in before]}
+    if len(after) != len(before):
+        return {"case": "compaction-changed-the-number-of-levels", **ctx_}
+    old_ids = {id(r) for lv in before for r in lv}
+    new_runs = [(l, i, r) for l, i, r in _runs_of(tree) if id(r) not in old_ids]
+    kept_ids = {id(r) for lv in after for r in lv}
+    consumed = [(l, i, r) for l, lv in enumerate(before) for i, r in enumerate(lv) if id(r) not in kept_ids]
+    for k in universe:                                   # the layered view is unchanged, for every key
+        if tree.get_sync(k) != read0[k]:
+            return {"case": "compaction-changed-a-read", "key": k, "before": read0[k], "after": tree.get_sync(k), **ctx_}
+        r1 = _raw_lookup(tree, k)
+        if r1 != raw0[k] and not (raw0[k] == ("val", _TOMBSTONE) and r1 == ("abs",)):
+            return {"case": "compaction-changed-the-stored-version", "key": k, **ctx_}
+    for l in range(len(before)):                         # surviving runs keep their relative order
+        surv = [r for r in before[l] if id(r) in kept_ids]
+        if [r for r in after[l] if id(r) in old_ids] != surv:
+            return {"case": "compaction-reordered-surviving-runs", "level": l, **ctx_}
+    if src is None:
+        if consumed or new_runs:
+            return {"case": "compaction-of-an-empty-tree-changed-it", **ctx_}
+        return None
+    tgt = min(src + 1, len(before) - 1)
+    if not consumed and not new_runs:
+        # nothing installed: allowed only when the merge is empty (all inputs are tombstones at the deepest level)
+        merged = {}
+        for r in before[src]:
+            merged.update(_entries(r))
+        if tgt == len(before) - 1 and all(v is _TOMBSTONE for v in merged.values()):
+            return None
+        return {"case": "compaction-did-nothing", "source": src, **ctx_}
+    if {id(r) for l, i, r in consumed if l == src} != {id(r) for r in before[src]}:
+        return {"case": "source-level-not-consumed-as-a-whole", "source": src, **ctx_}
+    if any(l not in (src, tgt) for l, i, r in consumed):
+        return {"case": "consumed-a-run-outside-source-and-target-level", **ctx_}
+    if len(new_runs) != 1 or new_runs[0][0] != tgt or new_runs[0][1] != len(after[tgt]) - 1:
+        return {"case": "merged-run-not-installed-as-the-newest-run-of-the-target-level", "target": tgt, **ctx_}
+    # the merged run holds, for every key of the inputs, the newest version among the inputs
+    merged = {}
+    for l, i, r in sorted(consumed, key=lambda c: (-c[0], c[1])):      # oldest first: deeper level, then lower index
+        merged.update(_entries(r))
+    if tgt == len(before) - 1:
+        merged = {k: v for k, v in merged.items() if v is not _TOMBSTONE}     # nothing older can lie beneath
+    got = new_runs[0][2]._data
+    if list(got) != sorted(merged.items()):
+        return {"case": "merged-run-is-not-the-newest-version-of-every-input-key", "target": tgt,
+                "got": [(k, "TOMB" if v is _TOMBSTONE else v) for k, v in got], **ctx_}
+    bad = _lsm_shape_violation(tree)
+    if bad:
+        return {**bad, **ctx_}
+    return None
+
+
+def _bounded_compaction_direct(seed, tier):
+    """ONE compaction (`_compact_sync`, and `_compact` run without interference) on directly constructed trees: 1..5
+    levels with random gaps (empty levels between occupied ones), 0..3 runs per level of 1..3 of 5 keys, tombstones
+    anywhere but the deepest level, runs of a level >= 1 key-disjoint; all three strategies.  Checked: every read
+    and the stored version of every key unchanged (a tombstone may only vanish when the key reads as absent below),
+    the whole source level consumed, one merged run installed as newest of the target level = source+1 (or the
+    deepest), holding the newest version of every input key, tombstones dropped only at the deepest level."""
+    import random
+    n = 6000 if tier == "thorough" else 2000
+    viol = []
+    universe = ["a", "b", "c", "d", "e"]
+    for t in range(n):
+        rng = random.Random(seed * 2750159 + t)
+        n_levels = rng.choice([1, 2, 3, 3, 4, 5])
+        strat = [SizeTieredCompaction(min_sstables=2), LeveledCompaction(level_0_max=rng.choice([1, 2]), size_ratio=2,
+                                                                        base_size_keys=1),
+                 FIFOCompaction(max_total_sstables=1)][t % 3]
+        tree = LSMTree("t", memtable_size=4, compaction_strategy=strat, max_levels=n_levels)
+        stamp = 0
+        for l in range(n_levels):
+            if rng.random() < 0.4:
+                continue                                                     # a gap
+            free = list(universe)
+            for _ in range(rng.choice([1, 1, 2, 3])):
+                pool = universe if l == 0 else free
+                if not pool:
+                    break
+                ks = rng.sample(pool, min(len(pool), rng.choice([1, 2, 3])))
+                free = [k for k in free if k not in ks]
+                row = {}
+                for k in ks:
+                    stamp += 1
+                    deepest = l == n_levels - 1 and n_levels > 1
+                    row[k] = _TOMBSTONE if (rng.random() < 0.35 and not deepest) else f"L{l}v{stamp}"
+                tree._levels[l].append(SSTable(sorted(row.items()), level=l, sequence=stamp))
+        if rng.random() < 0.3:
+            tree._memtable.put_sync(rng.choice(universe), "mem")             # the memtable stays on top
+        run_it = (lambda tr: tr._compact_sync()) if t % 2 == 0 else (lambda tr: _drain(tr._compact()))
+        bad = _check_one_compaction(tree, strat, run_it, universe)
+        if bad:
+            viol.append({"api": "_compact_sync" if t % 2 == 0 else "_compact", **bad})
+            if len(viol) >= 3:
+                break
+    return {"evaluations": n, "violations": viol}
 
 
 def _interval_oracle(ops):
@@ -1018,8 +1351,45 @@ def _concurrent_trial(make_store, rng, n_keys=3):
     sim = Simulation(entities=procs + [store], end_time=Instant.from_seconds(100))
     for p in procs:
         sim.schedule(Event(time=Instant.from_seconds(rng.choice([0, 0.001, 0.02])), event_type="go", target=p))
+    for _ in range(getattr(store, "_c14_triggers", 0)):      # externally triggered compactions at random instants
+        sim.schedule(Event(time=Instant.from_seconds(rng.choice([0.02, 0.05, 0.1, 0.2, 0.3, 0.5, 0.8])),
+                           event_type="CompactionTrigger", target=store))
     sim.run()
     return _interval_oracle(ops)
+
+
+def _same_level_merge_repaired():
+    """fixes/C14_same-level-merge-stays-oldest.diff is applied (see the finding in the header of the stand-in below)"""
+    from pyvc.ctx import REPO
+    return "insert(0, new_sst)" in open(_os.path.join(REPO, F_LSM)).read()
+
+
+def _bounded_lsm_concurrent_compactions(seed, tier):
+    """as lsm-generator-api-interleavings, but shallow and tall trees (2, 3, 5 levels), all three strategies, small
+    thresholds and externally triggered compactions (CompactionTrigger events), so that compactions overlap flushes
+    and each other.  FINDING (open until the repair is applied): with max_levels=1 a compaction merges level 0 into
+    level 0; a flush completing during its write latency appends a newer run, then the older merge is appended
+    behind it and shadows it for ever (triage/c14_single_level_compaction.py).  Single-level trees are part of the
+    workload only once the repair is in the tree."""
+    import random
+    levels = [2, 3, 5] + ([1, 1] if _same_level_merge_repaired() else [])
+
+    def mk(rng):
+        strat = rng.choice([SizeTieredCompaction(min_sstables=2), LeveledCompaction(level_0_max=2, size_ratio=2, base_size_keys=2),
+                            FIFOCompaction(max_total_sstables=rng.choice([1, 2]))])
+        tree = LSMTree("t", memtable_size=rng.choice([1, 2]), compaction_strategy=strat, max_levels=rng.choice(levels),
+                       sstable_read_latency=rng.choice([0.001, 0.01]), sstable_write_latency=rng.choice([0.01, 0.05, 0.2]))
+        tree._c14_triggers = rng.choice([0, 2, 4])
+        return tree
+    n = 1500 if tier == "thorough" else 500
+    viol = []
+    for t in range(n):
+        bad = _concurrent_trial(mk, random.Random(seed * 611953 + t))
+        if bad:
+            viol.append({"case": "stale-read-with-overlapping-compactions", "trial": t, **bad})
+            if len(viol) >= 3:
+                break
+    return {"evaluations": n, "violations": viol}
 
 
 def _bounded_lsm_concurrent(seed, tier):
@@ -1110,9 +1480,15 @@ def _isolated(fname):
 PROPERTY["bounded"] = [
     {"name": "lsm-sync-api-vs-dict", "bound": "150 (thorough: 400) random sequences of <= 40 put/delete/get/scan over 4 keys; "
      "memtable size 1..3, 2..4 levels, all three compaction strategies", "fn": _isolated("_bounded_lsm_sync")},
+    {"name": "lsm-one-compaction-on-constructed-trees", "bound": "2000 (thorough: 6000) directly constructed trees: 1..5 levels "
+     "with gaps, <= 3 runs per level of <= 3 of 5 keys, tombstones above the deepest level; _compact_sync and the drained "
+     "_compact under all three strategies", "fn": _isolated("_bounded_compaction_direct")},
     {"name": "lsm-generator-api-interleavings", "bound": "400 (thorough: 1200) random workloads of 2-3 concurrent processes, "
      "<= 10 operations each over 3 keys, random start offsets and gaps, inside a real Simulation",
      "fn": _isolated("_bounded_lsm_concurrent")},
+    {"name": "lsm-overlapping-compactions", "bound": "500 (thorough: 1500) random workloads of 2-3 concurrent processes plus 0-4 "
+     "externally triggered compactions on trees of 2/3/5 levels (1 level once fixes/C14_same-level-merge-stays-oldest.diff "
+     "is applied), memtable size 1..2, all three strategies", "fn": _isolated("_bounded_lsm_concurrent_compactions")},
     {"name": "btree-vs-dict-and-concurrent-get", "bound": "120 (thorough: 300) random sync sequences of <= 60 operations over 12 "
      "keys (order 3..5) and 250 (thorough: 600) concurrent workloads on the generator API (order 3, 6 keys)",
      "fn": _isolated("_bounded_btree")},
